@@ -47,6 +47,11 @@ struct C19Vis {
 	}
 
 	template<class V> void final(V&& v, MV const& m) {
+		if constexpr(rank_of<V> >= 2) { if(!m.has_zero()) {  // index extensions (all of them, not only the leading one) are part of view equality: the same elements under other inner first indices are another view
+			op("equality-of-re-based-twins"); auto fsv = firsts_of(v); auto&& same = v.reindexed(fsv[0], fsv[1]); auto&& inner = v.reindexed(fsv[0], fsv[1] + 1); auto&& lead = v.reindexed(fsv[0] + 1, fsv[1]);
+			if(!(same == v) || (same != v)) violation("C19:equality:same-extensions", "a view re-indexed to its own first indices does not compare equal to itself");
+			if((inner == v) || !(inner != v)) violation("C19:equality:inner-first-index-ignored", "two views of the same elements whose SECOND first index differs compare equal");
+			if((lead == v) || !(lead != v)) violation("C19:equality:leading-first-index-ignored", "two views of the same elements whose leading first index differs compare equal"); count("equality-of-re-based-twins"); } }
 		constexpr int D = rank_of<V>; if(m.has_zero()) return; L const N = m.n();
 		{ op("copy"); multi::array<int, D> C(v); if(tuple_to_vec(C.sizes()) != m.size) violation("C19:copy:sizes", "copy of a re-based view has other sizes"); else { for(L k = 0; k < N; ++k) if(C.data_elements()[k] != int(m.off[std::size_t(k)])) violation("C19:copy:values", "copy-constructed array differs from the twin at canonical position " + std::to_string(k)); }
 			op("equality"); if(!(C == v)) violation("C19:equality:copy-not-equal", "a copy of the view does not compare equal to it"); if(C != v) violation("C19:equality:copy-different", "a copy of the view compares different");
